@@ -344,6 +344,16 @@ def gen_cases(r, tier):
     add(" ".join('rule many%d { strings: $a = "x%d" condition: $a }' % (i, i) for i in range(200)), "arena-growth", "S", opt="g")
     add('import "pe" rule a { condition: for any s in pe.sections : ( for any i in (1..3) : ( s.raw_data_size > i ) ) }', "arena-growth", "S", opt="gi", units=['rule b { strings: $a = /abc.{0,300}?def/ condition: $a }'])
     add('include "inc2" rule t { condition: inc2_rule }', "arena-growth", "S", opt="gi")
+    # ---- default (file-system) include callback on things that are not regular files, missing files and a regular file: the error must be diagnosed AND
+    # the descriptor count of the process unchanged (harness: /proc/self/fd before and after)
+    okinc = os.path.join(core.OUT, "C07", "inc_ok.yar")
+    os.makedirs(os.path.dirname(okinc), exist_ok=True)
+    open(okinc, "w").write('rule from_file { condition: true }\n')
+    for target in (".", "..", "/", "/tmp", "/dev/null", "/dev/zero", "/proc/self/fd", "/proc/self", os.path.dirname(okinc), okinc, okinc + ".missing", "/nonexistent/x.yar", "", "libyara"):
+        for mode in ("S", "F", "D"):
+            add('include "%s" rule t { condition: true }' % target, "include-non-regular", mode, opt="d", fname=("f.yar" if mode in ("F", "D") else None))
+            add('rule a { condition: true } include "%s" include "%s" include "%s" rule t { condition: a }' % (target, target, target), "include-non-regular", mode, opt="d",
+                fname=("f.yar" if mode in ("F", "D") else None))
     # oversized tokens around YR_LEX_BUF_SIZE (8192) and far beyond
     L = 8192
     for n in [L - 3, L - 2, L - 1, L, L + 1, L + 2, 2 * L, 70000] + ([] if quick else [1 << 20]):
@@ -518,6 +528,8 @@ def protocol_problem(fields):
         return "an error callback had an empty message (last error %s)" % fields.get("lasterr")
     if fields["lineok"] != "1":
         return "every_error_has_line: %s error callback(s) had line < 1 (first such message: %s)" % (fields.get("l0"), fields.get("l0msg") if fields.get("l0") != fields.get("l0eof") else "unexpected end of file")
+    if fields.get("fds", "0") != "0":
+        return "the compilation changed the number of open file descriptors of the process by %s (descriptor leak)" % fields.get("fds")
     if fields["follow"] != "ok":
         return "follow-up compile+scan in the same process: %s" % fields["follow"]
     if errs == 0 and fields["rules"] != "1":
